@@ -5,6 +5,11 @@ import (
 	"fmt"
 	"strings"
 	"testing"
+	"testing/synctest"
+	"time"
+
+	"github.com/cbeuw/Cloak/internal/client"
+	"pgregory.net/rapid"
 
 	vk "github.com/cbeuw/Cloak/internal/verifkit"
 )
@@ -125,4 +130,131 @@ func TestVerif_C10_Wire(t *testing.T) {
 		vk.AddLabel("C10", "Wire", "connections-parsed", int64(len(fr.cliLinks)))
 		return res, nil
 	}))
+}
+
+// ---- unordered (UDP) sessions in direct mode: datagram traffic, including empty datagrams from the proxy target ----
+
+type c10Dgram struct {
+	Client vClientCfg
+	C2S    []int // datagram sizes sent by the client application on one stream
+	S2C    []int // datagram sizes the proxy target sends back (0 = empty datagram)
+}
+
+func c10DgramInner(sc c10Dgram) (vk.Result, error) {
+	res := vk.Result{}
+	raw := sc.Client.raw([32]byte{})
+	srv := newVSrv(vSrvOpts{Bypass: [][]byte{raw.UID}, Methods: []string{sc.Client.Method}, AutoNet: true})
+	defer srv.stop()
+	proxyLn := vk.NewListener()
+	defer proxyLn.Close()
+	srv.sta.ProxyDialer = &vk.DatagramDialer{Ln: proxyLn}
+	srv.serve()
+	go func() {
+		for {
+			pc, err := proxyLn.Accept()
+			if err != nil {
+				return
+			}
+			go func() {
+				buf := make([]byte, 65536)
+				first := true
+				for {
+					_, err := pc.Read(buf)
+					if err != nil {
+						return
+					}
+					if first {
+						first = false
+						for i, n := range sc.S2C {
+							b := make([]byte, n)
+							vFill(b, 0xd9, uint64(i))
+							if _, err := pc.Write(b); err != nil {
+								return
+							}
+						}
+					}
+				}
+			}()
+		}
+	}()
+	cnet := &vk.Net{Tap: true, Auto: true}
+	_, remote, auth, err := vMustProcess(sc.Client, srv.pub, time.Now)
+	if err != nil {
+		return res, fmt.Errorf("harness: %v", err)
+	}
+	auth.SessionId = 99
+	sesh := client.MakeSession(remote, auth, &vk.Dialer{Net: cnet, Ln: srv.cliLn})
+	defer sesh.Close()
+	st, err := sesh.OpenStream()
+	if err != nil {
+		return res, vk.Violatef("OpenStream failed: %v", err)
+	}
+	go func() {
+		buf := make([]byte, 65536)
+		for {
+			if _, err := st.Read(buf); err != nil {
+				return
+			}
+		}
+	}()
+	for i, n := range sc.C2S {
+		b := make([]byte, n)
+		vFill(b, 0xc1, uint64(i))
+		st.Write(b)
+		synctest.Wait()
+	}
+	synctest.Wait()
+	sesh.Close()
+	synctest.Wait()
+	both := 0
+	for _, l := range cnet.All() {
+		ok, err := c10Link(l, sc.Client.ServerName)
+		if err != nil {
+			return res, err
+		}
+		if ok {
+			both++
+		}
+	}
+	res.NonTrivial = both > 0
+	res.Count = int64(len(cnet.All()))
+	for _, n := range sc.S2C {
+		if n == 0 {
+			res.Labels = append(res.Labels, "empty-datagram-from-proxy-target")
+			break
+		}
+	}
+	return res, nil
+}
+
+func TestVerif_C10_Datagrams(t *testing.T) {
+	vk.Run(t, "C10", "Datagrams", func(rt *rapid.T) c10Dgram {
+		sc := c10Dgram{Client: vClientCfg{
+			UID: vUIDb64(rapid.SliceOfN(rapid.Byte(), 16, 16).Draw(rt, "uid")), Method: "openvpn",
+			Enc:     rapid.SampledFrom([]string{"plain", "aes-256-gcm", "aes-128-gcm", "chacha20-poly1305"}).Draw(rt, "enc"),
+			NumConn: rapid.IntRange(0, 4).Draw(rt, "numconn"), Browser: rapid.SampledFrom([]string{"chrome", "firefox", "safari"}).Draw(rt, "browser"),
+			Transport: "direct", ServerName: "www.bing.com", UDP: true}}
+		size := rapid.OneOf(rapid.SampledFrom([]int{0, 0, 1, 1200, 16132, 8192}), rapid.IntRange(0, 2000))
+		for i, n := 0, rapid.IntRange(1, 6).Draw(rt, "nc2s"); i < n; i++ {
+			k := size.Draw(rt, "c2s")
+			if k == 0 {
+				k = 1 // Stream.Write of nothing sends nothing
+			}
+			sc.C2S = append(sc.C2S, k)
+		}
+		for i, n := 0, rapid.IntRange(0, 6).Draw(rt, "ns2c"); i < n; i++ {
+			sc.S2C = append(sc.S2C, size.Draw(rt, "s2c"))
+		}
+		return sc
+	}, func(sc c10Dgram) (vk.Result, error) {
+		var res vk.Result
+		var verr error
+		berr := vk.Bubble(t, func() {
+			res, verr = vk.Protect(func() (vk.Result, error) { return c10DgramInner(sc) })
+		})
+		if verr == nil && berr != nil {
+			verr = fmt.Errorf("harness: bubble: %v", berr)
+		}
+		return res, verr
+	})
 }
